@@ -269,6 +269,110 @@ def confirm_split_cex(out, build):
 
 
 # ------------------------------------------------------------------------------------------------
+# passthrough jobs: parse_os_str::<OsString> / ::<PathBuf> hand back exactly the bytes they got
+
+def run_passthrough_job(job, build):
+    prog = tok.load_program(build, "none")
+    ex = new_text_exec(prog, step_budget=100000)
+    T = job["ty"]
+    L = job["len"]
+    out = {"stats": None, "cex": [], "inconclusive": [], "samples": [], "nontrivial": 0, "classes": {}, "obligations": 0}
+
+    def resolve(g):
+        g = (g or "").strip()
+        return T if g == "T" else g.split("::")[-1]
+
+    def m_typeid(ex_, c, args):
+        return Opaque("typeid", (resolve(c.generics),))
+
+    def m_downcast(ex_, c, args):
+        # Box<dyn Any>::downcast::<T>: succeeds iff the boxed value's type is T; the boxed values here
+        # are the OsString itself or PathBuf::from(it)
+        from mirsym.models import OK, ERR
+        want = resolve(c.generics)
+        tag = ex_.box_type.get(id(args[0]), getattr(ex_, "last_boxed", None))
+        if want == tag:
+            return OK(args[0])
+        return ERR(args[0])
+
+    def m_pathbuf_from(ex_, c, args):
+        v = rda(args[0])
+        ex_.last_boxed = "PathBuf"
+        return v
+
+    def m_box_new(ex_, c, args):
+        g = (c.raw or "")
+        if "PathBuf" in g:
+            ex_.last_boxed = "PathBuf"
+        elif "OsString" in g:
+            ex_.last_boxed = "OsString"
+        return args[0]
+
+    def m_from_str(ex_, c, args):
+        # <PathBuf as FromStr> / <OsString as FromStr> are infallible conversions of the given text
+        from mirsym.models import OK
+        return OK(rda(args[0]))
+    ex.models["TypeId::of"] = m_typeid
+    ex.models["Box::downcast"] = m_downcast
+    ex.models["PathBuf::from"] = m_pathbuf_from
+    ex.models["Box::new"] = m_box_new
+    ex.models["FromStr::from_str"] = m_from_str
+    from mirsym import fmtmodels as FM
+    for k, v in FM.FMT_MODELS.items():
+        ex.models.setdefault(k, v)
+    ex.box_type = {}
+
+    def harness(ex):
+        bs = [ex.fresh("b", 8) for _ in range(L)]
+        ex.last_boxed = None
+        res = ex.call(parse_callee("from_os_str::parse_os_str::<T>"), [BStr(tuple(bs))])
+        return (bs, res)
+
+    def on_path(ex, r):
+        out["obligations"] += 1
+        if ex.pc:
+            out["nontrivial"] += 1
+        if r.kind != "ok":
+            out["cex"].append({"kind": "passthrough-panics", "ty": T, "info": str(r.info), "bytes": None})
+            return
+        bs, res = r.value
+        bad = None
+        if res.var != 0:
+            bad = "conversion failed"
+        else:
+            got = TM.to_bstr(rda(res.fields[0])).b
+            eq = bytes_eq(ex, got, bs)
+            if eq is False or (eq is not True and ex.prove(eq) is not None):
+                if eq is not False and eq is not True:
+                    ex.solver.add(z3.Not(eq))
+                bad = "bytes differ"
+        if bad:
+            m = ex.model()
+            out["cex"].append({"kind": "passthrough-differs", "ty": T, "bytes": conc_bytes(m, bs).hex(), "why": bad})
+        elif len(out["samples"]) < 1:
+            out["samples"].append({"type": T, "bytes": conc_bytes(ex.model(), bs).hex(), "result": "Ok(same bytes)"})
+    try:
+        ex.explore(harness, on_path, max_paths=100000)
+    except Unmodelled as e:
+        out["inconclusive"].append("UNMODELLED %s [%s]" % (e, "/".join(ex.callstack[-3:])))
+    except BoundExceeded as e:
+        out["inconclusive"].append("BOUND %s" % e)
+    except ExecError as e:
+        out["inconclusive"].append("EXEC-ERROR %s [%s]" % (e, "/".join(ex.callstack[-3:])))
+    out["stats"] = dict(ex.stats)
+    out["models_used"] = dict(ex.model_hits)
+    out["fn_hits"] = dict(ex.fn_hits)
+    todo = [c for c in out["cex"] if c["kind"] == "passthrough-differs"]
+    if todo:
+        rp = Replayer(build["sets"]["none"]["replay"])
+        got = rp.run([("pp", [(b"--path=" if c["ty"] == "PathBuf" else b"--os=") + bytes.fromhex(c["bytes"])], {}) for c in todo])
+        for c, (cls, pay) in zip(todo, got):
+            c["native"] = [cls, pay[:300]]
+            c["reproduced"] = cls != "ok"
+    return out
+
+
+# ------------------------------------------------------------------------------------------------
 # construct jobs
 
 ALPHA_FULL = [DASH, EQ, ord("a"), ord("b"), ord("z"), 0xC3, 0xA9]
@@ -694,6 +798,9 @@ def make_jobs(tier, seed, build):
         jobs.append({"id": "construct:full:%s" % ",".join(map(str, ls)), "kind": "construct", "lens": ls, "alpha": "full"})
     for ls in three:
         jobs.append({"id": "construct:small:%s" % ",".join(map(str, ls)), "kind": "construct", "lens": ls, "alpha": "small"})
+    for ty in ("OsString", "PathBuf"):
+        for L in range(0, (3 if tier == "quick" else 4) + 1):
+            jobs.append({"id": "passthrough:%s:%d" % (ty, L), "kind": "passthrough", "ty": ty, "len": L})
     # spelling equivalence
     ctx = [((), ()), (("short",), ()), ((), ("long",)), (("word",), ()), ((), ("word",)), ((), ("dd",))]
     if tier != "quick":
@@ -718,6 +825,8 @@ def run_job(job, build):
         return run_split_job(job, build)
     if k == "construct":
         return run_construct_job(job, build)
+    if k == "passthrough":
+        return run_passthrough_job(job, build)
     if k == "spell":
         return run_spell_job(job, build)
     return run_tok_job(job, build, CORPUS, C01.Oracle())
@@ -746,6 +855,12 @@ def report_text_results(out, results):
                     out.violation("construct:" + ",".join(c["argv_hex"]), what, c)
                 elif c.get("reproduced") is None:
                     out.inconc("UNREPLAYABLE " + what)
+                else:
+                    out.inconc("NONREPRO " + what)
+            elif c["kind"] == "passthrough-differs":
+                what = "parse_os_str::<%s> on bytes %s: %s (grammar pp natively: %s)" % (c["ty"], c["bytes"], c["why"], c.get("native"))
+                if c.get("reproduced"):
+                    out.violation("passthrough:%s:%s" % (c["ty"], c["bytes"]), what, c)
                 else:
                     out.inconc("NONREPRO " + what)
             elif c["kind"] == "spelling-matters":
